@@ -618,4 +618,81 @@ example : climbIndices 1 [3, 1, 1, 2, 2, (0 : Int)] = [3] := by decide
 example : climbIndices 3 [0, 1, 1, (0 : Int)] = [1] := by decide
 example : climbIndices 3 [2, 1, 1, (3 : Int)] = [] := by decide
 end sel
+
+/-! ### units of length: tangents do not depend on them, arc coordinates scale, a step of an image commutes with the
+    change of unit when the gradient is homogeneous (tied on the implementation by the two-unit runs of the search) -/
+section units
+variable {K V : Type} [Field K] [LinearOrder K] [IsStrictOrderedRing K] [AddCommGroup V] [Module K V]
+variable (dot : V → V → K) (sqrt : K → K)
+
+/-- the unit vector does not depend on the unit of length: `(c·v)/|c·v| = v/|v|` for `c > 0`. -/
+theorem unitOf_scale_invariant (hl : ∀ (k : K) a c, dot (k • a) c = k * dot a c) (hr : ∀ (k : K) a c, dot a (k • c) = k * dot a c)
+    (hsq : ∀ (c x : K), 0 < c → sqrt (c * c * x) = c * sqrt x)
+    (c : K) (hc : 0 < c) (v : V) :
+    Path.unitOf dot sqrt (c • v) = Path.unitOf dot sqrt v := by
+  have e : dot (c • v) (c • v) = c * c * dot v v := by rw [hl, hr]; ring
+  simp only [Path.unitOf, e, hsq c _ hc, Nat.cast_one, smul_smul]
+  congr 1
+  have : c ≠ 0 := ne_of_gt hc
+  by_cases h0 : sqrt (dot v v) = 0
+  · simp [h0]
+  · field_simp
+
+theorem diffs_smul (c : K) (l : List V) : Path.diffs (l.map (c • ·)) = (Path.diffs l).map (c • ·) := by
+  induction l with
+  | nil => rfl
+  | cons a t ih =>
+    cases t with
+    | nil => rfl
+    | cons b t' =>
+      simp only [List.map_cons, Path.diffs] at ih ⊢
+      rw [ih, smul_sub]
+
+/-- `unittangent` of a string does not depend on the unit of length of its coordinates. -/
+theorem unitTangent_scale_invariant (hl : ∀ (k : K) a c, dot (k • a) c = k * dot a c) (hr : ∀ (k : K) a c, dot a (k • c) = k * dot a c)
+    (hsq : ∀ (c x : K), 0 < c → sqrt (c * c * x) = c * sqrt x)
+    (c : K) (hc : 0 < c) (l : List V) :
+    Path.unitTangentOf dot sqrt (l.map (c • ·)) = Path.unitTangentOf dot sqrt l := by
+  simp only [Path.unitTangentOf, diffs_smul, List.map_map]
+  congr 2
+  apply List.map_congr_left
+  intro v _
+  exact unitOf_scale_invariant dot sqrt hl hr hsq c hc v
+
+/-- arc coordinates scale with the unit of length. -/
+theorem arccoord_scale (hl : ∀ (k : K) a c, dot (k • a) c = k * dot a c) (hr : ∀ (k : K) a c, dot a (k • c) = k * dot a c)
+    (hsq : ∀ (c x : K), 0 < c → sqrt (c * c * x) = c * sqrt x)
+    (c : K) (hc : 0 < c) (l : List V) :
+    Path.arccoordOf dot sqrt (l.map (c • ·)) = (Path.arccoordOf dot sqrt l).map (c * ·) := by
+  have hcs : ∀ (acc : K) (xs : List K), Path.cumsum (c * acc) (xs.map (c * ·)) = (Path.cumsum acc xs).map (c * ·) := by
+    intro acc xs
+    induction xs generalizing acc with
+    | nil => simp [Path.cumsum]
+    | cons x t ih => simp only [List.map_cons, Path.cumsum, ← mul_add, ih]
+  simp only [Path.arccoordOf, diffs_smul, List.map_map]
+  have e : ((fun v => sqrt (dot v v)) ∘ fun x : V => c • x) = (fun x => c * x) ∘ fun v => sqrt (dot v v) := by
+    funext v
+    simp only [Function.comp, hl, hr]
+    rw [← hsq c _ hc]; congr 1; ring
+  rw [e, ← List.map_map, ← hcs]
+  simp
+example : ∀ (c x : ℝ), 0 < c → Real.sqrt (c * c * x) = c * Real.sqrt x := fun c x hc => by
+  rw [Real.sqrt_mul (mul_self_nonneg c), Real.sqrt_mul_self hc.le]
+end units
+
+section stepunits
+variable {K V : Type} [Field K] [CharZero K] [AddCommGroup V] [Module K V]
+
+/-- for an energy whose gradient is homogeneous of degree one (quadratic energies) a step of an image commutes with a
+    change of the unit of length, for both integrators. -/
+theorem stepRow_homogeneous (p : Path V K)
+    (hp : p.integratorfxn = (fun r x h => euler r x h) ∨ p.integratorfxn = (fun r x h => rungekutta r x h))
+    (hg : ∀ (c : K) x, p.gradPoint (c • x) = c • p.gradPoint x) (h c : K) (x : V) :
+    p.stepRow h (c • x) = c • p.stepRow h x := by
+  have hf : ∀ (c : K) y, rate p.gradPoint (c • y) = c • rate p.gradPoint y := by
+    intro c y; simp only [rate, hg, smul_neg]
+  rcases hp with hp | hp
+  · simp only [Path.stepRow, hp]; exact euler_homogeneous _ hf c x h
+  · simp only [Path.stepRow, hp]; exact rk4_homogeneous _ hf c x h
+end stepunits
 end Atomman.C20
